@@ -1094,4 +1094,46 @@ def viewRun (indexAlwaysOwn : Bool) (s : VSt) (probes : List Str) : List VOp →
   | [] => [observe indexAlwaysOwn s probes]
   | op :: rest => observe indexAlwaysOwn s probes :: viewRun indexAlwaysOwn (viewStep s op) probes rest
 
+/-! ## several bridged structs of distinct Go types in one process (fieldIndexByName is a function of the TYPE) -/
+
+/-- objects by name, each with its own field layout (Go field name ↦ value, in declaration order) -/
+structure RecSt where
+  objs : List (Str × List (Str × Int))
+  shadows : List (Nat × Str × Str)        -- (runtime, object, name) written by a script although no such field exists
+
+inductive ROp where
+  | read (vm : Nat) (o f : Str)
+  | write (vm : Nat) (o f : Str) (v : Int)
+
+inductive RObs where
+  | val (n : Int) | undef | unit | shadow | shadowRead
+
+def lookupObj (o : Str) : List (Str × List (Str × Int)) → Option (List (Str × Int))
+  | [] => none
+  | (o', fs) :: r => if o' = o then some fs else lookupObj o r
+
+def setObj (o : Str) (fs : List (Str × Int)) : List (Str × List (Str × Int)) → List (Str × List (Str × Int))
+  | [] => []
+  | (o', fs') :: r => if o' = o then (o, fs) :: r else (o', fs') :: setObj o fs r
+
+/-- a property access resolves the name against the object's OWN type, whatever other types exist -/
+def recStep (s : RecSt) : ROp → RecSt × RObs
+  | .read vm o f =>
+    (s, match (lookupObj o s.objs).bind (lookupEnt f) with
+        | some n => .val n
+        | none => if s.shadows.contains (vm, o, f) then .shadowRead else .undef)
+  | .write vm o f v =>
+    match lookupObj o s.objs with
+    | none => (s, .undef)
+    | some fs =>
+      if (lookupEnt f fs).isSome then ({ s with objs := setObj o (setEnt f v fs) s.objs }, .unit)
+      else ({ s with shadows := (vm, o, f) :: s.shadows }, .shadow)
+
+def recRun (s : RecSt) : List ROp → RecSt × List RObs
+  | [] => (s, [])
+  | op :: rest =>
+    let (s', o) := recStep s op
+    let (s'', os) := recRun s' rest
+    (s'', o :: os)
+
 end OttoVerif.C16
